@@ -254,6 +254,11 @@ impl HotReloader {
     pub(crate) fn verif_msgs_pending(&self) -> usize {
         self.sender.len()
     }
+
+    /// Identity of this reloader's thread for `verif::reloader_in_ready`.
+    pub(crate) fn verif_id(&self) -> usize {
+        Arc::as_ptr(&self.answers) as usize
+    }
 }
 
 impl fmt::Debug for HotReloader {
@@ -281,7 +286,11 @@ fn hot_reloading_thread(
         // `cache_msg` channel first.
         #[cfg(assets_manager_verif)]
         crate::verif::yield_point("hr-thread-before-ready");
+        #[cfg(assets_manager_verif)]
+        crate::verif::set_reloader_in_ready(Arc::as_ptr(&answers) as usize, Some(true));
         let ready = select.ready();
+        #[cfg(assets_manager_verif)]
+        crate::verif::set_reloader_in_ready(Arc::as_ptr(&answers) as usize, Some(false));
         #[cfg(assets_manager_verif)]
         crate::verif::yield_point("hr-thread-after-ready");
 
@@ -323,6 +332,9 @@ fn hot_reloading_thread(
             }
         }
     }
+
+    #[cfg(assets_manager_verif)]
+    crate::verif::set_reloader_in_ready(Arc::as_ptr(&answers) as usize, None);
 
     log::info!("Stopping hot-reloading");
 }
